@@ -148,6 +148,13 @@ func (s *sim) drawConfig() {
 			}
 		case "forge":
 			b.forge = rc.Property
+			if rc.Property == "C05" && t.Permille("n.large", 200) {
+				// a larger validator set (certificates with ten and more items; two Byzantine validators allowed)
+				c.N = []int{10, 13}[t.Choose("n.large.n", 2)]
+				if c.TargetHeight > 6 {
+					c.TargetHeight = 6
+				}
+			}
 			if rc.Property == "C08" && c.TxCount < 4 {
 				c.TxCount = 4 + t.Choose("txs.c08", 8) // bodies with transactions to swap and strip
 			}
@@ -163,6 +170,9 @@ func (s *sim) drawConfig() {
 	}
 	if c.N > 1 && t.Permille("skew", 300) {
 		c.SkewMaxUs = int64([]int{1000, 100000, 5000000}[t.Choose("skewmax", 3)])
+	}
+	if prof == "forge" && rc.Property == "C07" && t.Permille("skew.c07", 500) {
+		c.SkewMaxUs = 5000000 // vote timestamps that lag by seconds: medians at or below a parent's timestamp become possible
 	}
 	rc.Config["n"] = c.N
 	rc.Config["target_height"] = c.TargetHeight
